@@ -50,6 +50,52 @@ fn k_for(t: Tier, sk: RSkel) -> usize {
 }
 
 /// shards: per skeleton x subst: baseline + each first slot; plus the single-relation full product
+pub const PERM_BASE: u32 = 0x40_0000;
+/// case `idx` of the ordering family: (relation text, model) in the order they are written
+fn perm_case(idx: usize) -> Option<Vec<(String, MRel)>> {
+    let names = ["a", "lib-x+1.0", "0ad", "b"];
+    let mk = |name: &str, ver: Option<&str>| -> (String, MRel) {
+        let text = match ver {
+            Some(v) => format!("{} (>= {})", name, v),
+            None => name.to_string(),
+        };
+        (text, MRel { name: name.to_string(), archqual: None, version: ver.map(|v| (">=".to_string(), v.to_string())), archs: None, profiles: vec![] })
+    };
+    let mut seqs: Vec<Vec<(String, MRel)>> = vec![];
+    // permutations of 3 and of 4 distinct names, without and with versions
+    fn perms(items: &[usize]) -> Vec<Vec<usize>> {
+        if items.len() <= 1 {
+            return vec![items.to_vec()];
+        }
+        let mut out = vec![];
+        for i in 0..items.len() {
+            let mut rest = items.to_vec();
+            let x = rest.remove(i);
+            for mut p in perms(&rest) {
+                p.insert(0, x);
+                out.push(p);
+            }
+        }
+        out
+    }
+    for n in [3usize, 4] {
+        for p in perms(&(0..n).collect::<Vec<_>>()) {
+            for with_ver in [false, true] {
+                seqs.push(p.iter().map(|i| mk(names[*i], if with_ver { Some(["1", "2:1.0", "1.0~rc1", "3-1"][*i]) } else { None })).collect());
+            }
+        }
+    }
+    // one name, different versions / operators, both orders; with an unversioned one among them
+    for p in perms(&[0, 1, 2]) {
+        let vs = [Some("1"), Some("2"), None];
+        seqs.push(p.iter().map(|i| mk("a", vs[*i])).collect());
+    }
+    seqs.into_iter().nth(idx)
+}
+fn n_perm_cases() -> usize {
+    (6 + 24) * 2 + 6
+}
+
 #[derive(Clone, Copy)]
 enum RShard {
     Dev(RSkel, bool, Option<usize>),
@@ -100,12 +146,17 @@ fn explore_rel(t: Tier, shard: usize, f: &mut dyn FnMut(&RelCase) -> Verdict) {
                     f(&RelCase { skel: sk, v: vec![], subst: false, ident: Some((cp, true)) });
                 }
             }
+            for idx in 0..n_perm_cases() {
+                for as_alternatives in [false, true] {
+                    f(&RelCase { skel: sk, v: vec![], subst: false, ident: Some((PERM_BASE + idx as u32, as_alternatives)) });
+                }
+            }
         }
         RShard::Parts(name) => {
             let sk = RSkel { entries: 1, alts: 1 };
             let m = menus(sk);
             let base = 3 + 3 + 2; // index of the relation slots
-            product(&[3, 6, VERS.len(), 6, 8], &mut |pv| {
+            product(&[3, 6, VERS.len(), ARCHS.len(), 8], &mut |pv| {
                 let mut v = vec![0usize; m.len()];
                 v[base] = name;
                 for (i, x) in pv.iter().enumerate() {
@@ -115,7 +166,11 @@ fn explore_rel(t: Tier, shard: usize, f: &mut dyn FnMut(&RelCase) -> Verdict) {
                     return;
                 }
                 f(&RelCase { skel: sk, v: v.clone(), subst: false, ident: None });
-                // every single whitespace deviation on top of this relation
+                // every single whitespace deviation on top of this relation (for the first three versions and six
+                // architecture lists; the further shapes of those two menus go through the product above)
+                if pv[2] >= 3 || pv[3] >= 6 {
+                    return;
+                }
                 for ws in (base + 6..base + REL_SLOTS).chain([0, 1, 2]) {
                     for c in 1..m[ws] {
                         let mut w = v.clone();
@@ -364,11 +419,11 @@ impl Prop for RelProp {
         "exploration"
     }
     fn rule(&self, _t: Tier) -> String {
-        "relationship fields are choice vectors over the slots of an ExA skeleton (1-3 entries x 1-3 alternatives): entry kind (relation entry / empty entry / substvar), whitespace around ',' and '|' and at field start/end (incl. newlines), trailing comma, and per relation name, archqual, operator, version (epoch, '~'), architecture list (negated or not), profile groups and whitespace between parts; every vector with <= k deviations is rendered with its model and read; additionally every identifier character (alphanumerics, '-', '.', '+', '~') inside a package name and inside a version, and the FULL product of the relation parts for a one-relation field x every single whitespace deviation; vectors whose deviation has no effect are skipped (all cases distinct); non-trivial = field with at least one deviation".into()
+        "relationship fields are choice vectors over the slots of an ExA skeleton (1-3 entries x 1-3 alternatives): entry kind (relation entry / empty entry / substvar), whitespace around ',' and '|' and at field start/end (incl. newlines), trailing comma, and per relation name, archqual, operator, version (epoch, '~'), architecture list (negated or not), profile groups and whitespace between parts; every vector with <= k deviations is rendered with its model and read; additionally every identifier character (alphanumerics, '-', '.', '+', '~') inside a package name and inside a version, every order of three and of four relations with distinct names (with and without versions) and of three relations of one name with different versions, as entries and as alternatives, and the FULL product of the relation parts for a one-relation field x every single whitespace deviation; vectors whose deviation has no effect are skipped (all cases distinct); non-trivial = field with at least one deviation".into()
     }
     fn bounds(&self, t: Tier) -> Value {
         let per: Vec<Value> = skeletons().iter().map(|sk| json!({"skeleton": sk, "slots": menus(*sk).len(), "k": k_for(t, *sk), "vectors_upper_bound": kdev_count(&menus(*sk), k_for(t, *sk))})).collect();
-        json!({"skeletons": per, "single_relation_parts_product": 3 * 3 * 6 * VERS.len() * 6 * 8, "menus": {"names": NAMES, "archquals": ARCHQUALS, "ops": OPS, "versions": VERS, "archs": ARCHS, "profiles": PROFILES, "separator_ws": SEP_WS, "part_ws": PART_WS, "item_ws": ITEM_WS}})
+        json!({"skeletons": per, "single_relation_parts_product": 3 * 3 * 6 * VERS.len() * ARCHS.len() * 8, "menus": {"names": NAMES, "archquals": ARCHQUALS, "ops": OPS, "versions": VERS, "archs": ARCHS, "profiles": PROFILES, "separator_ws": SEP_WS, "part_ws": PART_WS, "item_ws": ITEM_WS}})
     }
     fn assumptions(&self) -> Vec<String> {
         vec![
@@ -385,6 +440,15 @@ impl Prop for RelProp {
     }
     fn check(&self, c: &RelCase, st: &mut Stats) -> Vec<Viol> {
         let rendered = match c.ident {
+            Some((cp, as_alternatives)) if cp >= PERM_BASE => {
+                // every order of 2..4 relations (distinct names, or one name with different versions) as the entries of a
+                // field / as the alternatives of one entry
+                let Some(rels) = perm_case((cp - PERM_BASE) as usize) else { return vec![] };
+                let text = rels.iter().map(|(t, _)| t.as_str()).collect::<Vec<_>>().join(if as_alternatives { " | " } else { ", " });
+                let ms: Vec<MRel> = rels.into_iter().map(|(_, m)| m).collect();
+                let entries = if as_alternatives { vec![ms] } else { ms.into_iter().map(|m| vec![m]).collect() };
+                Some((text, MField { entries, substvars: vec![] }))
+            }
             Some((cp, in_version)) => {
                 let ch = char::from_u32(cp).unwrap_or('a');
                 let name = if in_version { "pkg".to_string() } else { format!("x{}y", ch) };
